@@ -32,6 +32,29 @@ struct Global {
 
 static GLOBAL: OnceLock<Global> = OnceLock::new();
 
+/// The last panic whose location lies in the crate under test (set by the panic hook).
+pub static LAST_CRATE_PANIC: std::sync::Mutex<Option<String>> = std::sync::Mutex::new(None);
+
+/// Safety net for a panic that escaped every guarded case: if it was raised by the crate under
+/// test it is reported as a violation of the running property, otherwise it is a machinery error.
+pub fn escaped_panic() -> i32 {
+    let msg = LAST_CRATE_PANIC.lock().unwrap().clone();
+    match (msg, GLOBAL.get()) {
+        (Some(m), Some(g)) => {
+            let key = format!("{}/unattributed-panic-in-crate-code", g.prop);
+            let dir = g.out_dir.join("replays");
+            let _ = std::fs::create_dir_all(&dir);
+            let path = dir.join(format!("{}-{:016x}.json", g.prop, fnv(key.as_bytes())));
+            let body = json!({"property": g.prop, "key": key, "detail": m, "tier": g.tier, "build": g.build, "case": {"note": "the crate under test panicked outside an attributed case; re-run the check to reproduce"}});
+            let _ = std::fs::write(&path, serde_json::to_string_pretty(&body).unwrap_or_default());
+            println!("  key={} detail={}", key, m);
+            println!("VIOLATION property={} replay={}", g.prop, path.display());
+            1
+        }
+        _ => 2,
+    }
+}
+
 pub fn install(ctx: &Ctx) {
     let out_dir = std::env::var("VERIF_OUT")
         .map(std::path::PathBuf::from)
@@ -44,7 +67,13 @@ pub fn install(ctx: &Ctx) {
         build: std::env::var("VERIF_BUILD").unwrap_or_else(|_| "std-dev".into()),
     });
     let prev = std::panic::take_hook();
+    let repo_dir = std::env::var("VERIF_REPO_DIR").unwrap_or_else(|_| "/repo".into());
     std::panic::set_hook(Box::new(move |info| {
+        if let Some(loc) = info.location() {
+            if loc.file().starts_with(&repo_dir) {
+                *LAST_CRATE_PANIC.lock().unwrap() = Some(format!("{}", info).replace('\n', " "));
+            }
+        }
         if IN_GUARD.with(|g| g.get()) {
             let msg = format!("{}", info);
             LAST_PANIC.with(|l| *l.borrow_mut() = msg);
